@@ -251,6 +251,42 @@ theorem run_of_feasible (i : Inst) (as : List Nat) (hf : Feasible i as) (hc : Ca
       exact List.count_pos_iff.mp (by omega)
   simp [env, done, Params.svrpDoneCmp, Cmp.evalNat, this]
 
+/-- the executable canonicity test of the Spec (used by the harness to tell the known pruning from any
+other blocked solution) decides `Canonical` -/
+theorem canonFromB_iff (i : Inst) (as : List Nat) : ∀ k b, canonFromB i k b as = true ↔ canonFrom i k b as := by
+  induction as with
+  | nil => intro k b; simp [canonFromB, canonFrom]
+  | cons a as ih =>
+    intro k b
+    simp only [canonFromB, canonFrom, Bool.and_eq_true, Bool.or_eq_true, Bool.not_eq_true',
+      Bool.and_eq_false_iff, beq_eq_false_iff_ne, List.all_eq_true, beq_iff_eq, decide_eq_false_iff_not, ih]
+    have hdec : decide (a = 0) = (a == 0) := by by_cases h : a = 0 <;> simp [h]
+    rw [hdec]
+    constructor
+    · rintro ⟨h1, h2⟩
+      refine ⟨fun ha hb j hj hj0 => ?_, h2⟩
+      rcases h1 with (h | h) | h
+      · exact absurd ha h
+      · rw [hb] at h; exact absurd h (by simp)
+      · rcases h j hj with h' | h'
+        · exact absurd h' hj0
+        · exact h'
+    · rintro ⟨h1, h2⟩
+      refine ⟨?_, h2⟩
+      by_cases ha : a = 0
+      · by_cases hb : b = true
+        · right
+          intro j hj
+          by_cases hj0 : j = 0
+          · left; exact hj0
+          · right; exact h1 ha hb j hj hj0
+        · left; right; simpa using hb
+      · left; left; exact ha
+
+theorem canonical_iff (i : Inst) (as : List Nat) : canonical i as = true ↔ Canonical i as := by
+  simp only [canonical, Bool.and_eq_true, canonFromB_iff, List.contains_iff_mem]
+  exact ⟨fun ⟨h1, h2⟩ => ⟨h1, h2⟩, fun h => ⟨h.prune, h.depot⟩⟩
+
 /-- the statement without the canonicity clause -/
 def run_of_feasible_statement : Prop :=
   ∀ (i : Inst) (as : List Nat), WF i → Feasible i as → 0 ∈ as →
